@@ -387,7 +387,7 @@ def call_extern(ctx, fr, path, qualname, args, kwargs, node=None, result_ann=Non
     if not vs:
         res = z3.Const(f"{site}!const", V)
     path.note(f"external call {qualname}: result havocked (function of its arguments), no effect on verified state")
-    if "EXT" in path.ghost:
+    if "EXT" in path.ghost and not ctx.spec_mode:
         # ghost log of the external calls of this activation: (qualified name, argument values..., result)
         log = path.ghost["EXT"]
         rec = V.VTuple(smt.seq_of_list([V.VStr(z3.StringVal(qualname))] + vs + [res]))
